@@ -49,6 +49,10 @@ package hevc
 //@   requires r != nil
 //@   modifies *r
 //@   ensures res <= 1
+//@ extern func (r *bits.Reader) Peek(n int) (res uint64)
+//@   panics
+//@   requires r != nil
+//@   modifies
 //@ extern func (r *bits.Reader) ReadUint8(n int) (res uint8)
 //@   panics
 //@   requires r != nil
@@ -93,6 +97,22 @@ package hevc
 //@   panics
 //@   requires ptl != nil && r != nil
 //@   modifies *ptl, *r
+// profile_tier_level() syntax shape (7.3.3), checked against the code under the assumption that the reader has enough
+// data: when sub-layers are present, the present-flag pairs are padded with reserved_zero_2bits up to EIGHT entries
+// (the loop runs from max_num_sub_layers_minus1 to 8), every array index stays in range, and only *ptl and *r are written
+//@ func (ptl *H265RawProfileTierLevel) decode(r *bits.Reader, profile_present_flag bool, max_num_sub_layers_minus1 int) (err error)
+//@   variant syntax
+//@   nopanic ReadBit ReadUint8 Skip Peek
+//@   requires ptl != nil && r != nil && 0 <= max_num_sub_layers_minus1 && max_num_sub_layers_minus1 <= 7
+//@   modifies *ptl, *r
+//@   local i, j int
+//@   loop 0: invariant 0 <= j
+//@   loop 1: invariant 0 <= i
+//@   loop 2: invariant max_num_sub_layers_minus1 <= i && i <= 8
+//@   loop 2: exit i == 8
+//@   loop 2: decreases 8 - i
+//@   loop 3: invariant 0 <= i
+//@   loop 4: invariant 0 <= j && 0 <= i && i < max_num_sub_layers_minus1
 //@ func (sl *H265RawScalingList) decode(r *bits.Reader) (err error)
 //@   trusted
 //@   panics
